@@ -5,9 +5,9 @@
   Mirrors the data the anchored code looks at:
     ipv8/messaging/anonymization/tunnel.py   Hop (address, flags), Circuit (circuit_id, goal_hops, ctype, _closing, _hops)
 -/
-namespace Ipv8.C07
+import Ipv8.Base.Proto
 
-abbrev Bytes := List UInt8
+namespace Ipv8.C07
 
 /-- a socket address; the model never looks inside one -/
 abbrev Addr := Nat
